@@ -178,7 +178,7 @@ type Chain struct {
 // VoteSpec says how one validator behaves in the precommit of a block.
 type VoteSpec struct {
 	Val    int    `json:"val"`    // validator index
-	Mode   int    `json:"mode"`   // 0 honest, 1 absent, 2 nil vote, 3 custom payload (Payload), 4 honest via the real ExtendVoteHandler, 5 honest extension mutated by (Mut,Arg)
+	Mode   int    `json:"mode"`   // 0 honest, 1 absent, 2 nil vote, 3 custom payload (Payload), 4 honest via the real ExtendVoteHandler, 5 honest extension mutated by (Mut,Arg), 6 nil vote carrying a (mutated) extension
 	Payload []byte `json:"payload,omitempty"`
 	Mut    int    `json:"mut,omitempty"` // mutation kind for mode 5 (see MutateExtension)
 	Arg    int    `json:"arg,omitempty"` // mutation argument for mode 5
@@ -571,6 +571,12 @@ func (c *Chain) NextBlock(in BlockInput) *BlockResult {
 			ev.flag = cmtproto.BlockIDFlagAbsent
 		case 2:
 			ev.flag = cmtproto.BlockIDFlagNil
+		case 6:
+			// a nil precommit that nevertheless carries extension bytes (never signature-checked by the SDK):
+			// what a Byzantine proposer can put into the extended commit it injects
+			ev.flag = cmtproto.BlockIDFlagNil
+			ev.ext = c.MutateExtension(c.MimicExtension(sv.v, h), sv.v, vs.Mut, vs.Arg)
+			ev.sent = ev.ext
 		default:
 			var ext []byte
 			if mode == 3 {
